@@ -14,7 +14,7 @@ from vmon.libutil import monitored
 
 LEVEL = "exploration"
 SHARDS = {"quick": 8, "thorough": 16}
-MUST = ["recorder.rows", "recorder.pprint", "recorder.console", "describe.runs", "parse.runs", "parse.index_valid", "parse.index_out_of_range", "files.empty", "files.truncated",
+MUST = ["recorder.rows", "recorder.pprint", "recorder.console", "describe.runs", "parse.runs", "parse.index_valid", "parse.index_out_of_range", "files.empty", "files.truncated", "files.unrecognized_apids", "files.prefixed_skip_header_bytes",
         "n.le10", "n.gt10", "parse.beyond_max_items", "parse.with_display_options", "files.duplicate_packets", "flags.none", "flags.-q", "flags.--quiet"]
 RULE = ("case = (packet file of n packets, command, packet index); the recorded rows / pretty-printed object / console "
         "messages are compared with the expectation computed from the packet list: every row once in order for "
@@ -132,6 +132,17 @@ def _run(ctx):
     defpath = os.path.join(scratch, "def.xml")
     with open(defpath, "wb") as f:
         f.write(docs.header_plus_blob_doc())
+    # a second definition that only describes APID 11 (abstract root, one inheriting container): other APIDs are unrecognized
+    defpath_apid = os.path.join(scratch, "def_apid11.xml")
+    with open(defpath_apid, "wb") as f:
+        blob = docs.header_plus_blob_doc().decode()
+        t = blob[blob.index("<xtce:BinaryParameterType"):blob.index("</xtce:BinaryParameterType>") + len("</xtce:BinaryParameterType>")]
+        f.write(docs.header_only_doc(
+            extra_types=t, extra_params='<xtce:Parameter name="BLOB" parameterTypeRef="BLOB_Type"/>', root_abstract=True,
+            extra_containers='<xtce:SequenceContainer name="P11"><xtce:EntryList><xtce:ParameterRefEntry parameterRef="BLOB"/>'
+                             '</xtce:EntryList><xtce:BaseContainer containerRef="CCSDSPacket"><xtce:RestrictionCriteria>'
+                             '<xtce:Comparison parameterRef="PKT_APID" value="11" useCalibratedValue="false"/>'
+                             '</xtce:RestrictionCriteria></xtce:BaseContainer></xtce:SequenceContainer>'))
     runner = CliRunner()
 
     def mkpackets(n):
@@ -145,6 +156,16 @@ def _run(ctx):
         h = int.from_bytes(p[:6], "big")
         return (str(h >> 45), str(h >> 44 & 1), str(h >> 43 & 1), str(h >> 32 & 0x7FF), str(h >> 30 & 3), str(h >> 16 & 0x3FFF),
                 str(h & 0xFFFF))
+
+    def record_starts(data, skip):
+        out, pos = [], 0
+        while len(data) - pos >= skip + 6:
+            n = skip + 7 + int.from_bytes(data[pos + skip + 4:pos + skip + 6], "big")
+            if len(data) - pos < n:
+                break
+            out.append(pos)
+            pos += n
+        return out
 
     def frames(data):
         out, pos = [], 0
@@ -223,10 +244,14 @@ def _run(ctx):
             ctx.violation(f"describe/rows/{'duplicated' if dup else 'wrong'}/n={nclass(n)}",
                           f"{len(rec.rows)} rows recorded, expected {len(exp)} (n={n})", dict(wit, got=rec.rows[:14], expected=exp[:14]))
 
-    def parse(data, idx, fclass, extra=()):
-        pk = frames(data)
+    def parse(data, idx, fclass, extra=(), definition=None, skip=0):
+        pk = frames(data) if not skip else [data[i + skip:i + skip + 7 + int.from_bytes(data[i + skip + 4:i + skip + 6], "big")]
+                                            for i in record_starts(data, skip)]
+        if definition is not None:
+            pk = [p for p in pk if int.from_bytes(p[:2], "big") & 0x7FF == 11]     # the packets that definition describes
         n = len(pk)
-        args = ["parse", "FILE", defpath] + ([] if idx is None else ["--packet", str(idx)]) + list(extra)
+        args = ["parse", "FILE", definition or defpath] + ([] if idx is None else ["--packet", str(idx)]) + list(extra) + \
+            (["--skip-header-bytes", str(skip)] if skip else [])
         rec, res = invoke(args, data)
         ctx.count("evaluations")
         ctx.count("parse.runs")
@@ -297,6 +322,32 @@ def _run(ctx):
                     if ctx.mine(item):
                         parse(data, idx, "intact", extra)
                         ctx.count("parse.with_display_options")
+        # files holding packets the definition does not describe (other APIDs): the index counts the packets the command
+        # lists without --packet; no index may end in a traceback
+        for n, pat in ((1, "u"), (2, "ur"), (3, "rur"), (4, "uurr"), (6, "rruurr"), (7, "ururuuu"), (12, "ruruurrruuur"), (5, "uuuuu")):
+            pk = mkpackets(n)
+            def with_apid(p, recognised):
+                w = int.from_bytes(p[:2], "big")
+                apid = 11 if recognised else (99 if w & 0x7FF == 11 else w & 0x7FF)
+                return ((w & ~0x7FF) | apid).to_bytes(2, "big") + p[2:]
+            pk = [with_apid(p, c == "r") for p, c in zip(pk, pat)]
+            data = b"".join(pk)
+            nrec = pat.count("r")
+            for idx in [None] + list(range(0, nrec + 3)):
+                item += 1
+                if ctx.mine(item):
+                    parse(data, idx, "unrecognized-apids", definition=defpath_apid)
+                    ctx.count("files.unrecognized_apids")
+        # foreign bytes before every packet, skipped with --skip-header-bytes
+        for n in (0, 1, 3, 11):
+            for skip in (1, 4):
+                pk = mkpackets(n)
+                data = b"".join(bytes([0xEE]) * skip + p for p in pk)
+                for idx in [None, 0, n - 1, n, n + 1]:
+                    item += 1
+                    if ctx.mine(item) and (idx is None or idx >= 0):
+                        parse(data, idx, "prefixed", skip=skip)
+                        ctx.count("files.prefixed_skip_header_bytes")
         # files with byte-identical packets (idle / replayed packets) in head and tail
         for n in (2, 4, 7, 10, 11, 13, 24):
             uniq = mkpackets(3)
